@@ -258,6 +258,17 @@ class FullOps(TorchCalls):
             return self.tag(out_, "masked_fill", node, value_text=vtxt.replace('"', "'"), in_origin=sorted(t.origin), mask_origin=sorted(mk.origin), axes=list(t.axes))
         if name == "diag":
             return self.diag(t, node)
+        if name in ("normal_", "uniform_") and not args and not kwargs and not t.alias and t.kind == "tensor":
+            # fresh.normal_() / fresh.uniform_(): the tensor is overwritten with standard normal / uniform(0, 1) draws from torch's global generator —
+            # torch.randn / torch.rand of that shape, in the dtype of the tensor
+            fn_ = "randn" if name == "normal_" else "rand"
+            self.ev("rng", node, fn="torch." + fn_, torch_global=True)
+            p_, q_ = "R" not in t.axes, "C" not in t.axes
+            if not p_:
+                self.clear("p", "random draw laid out along the row axis", node)
+            if not q_:
+                self.clear("q", "random draw laid out along the column axis", node)
+            return self.tag(TV(kind=t.kind, axes=t.axes, p=p_, q=q_, s=q_, z=q_ and t.z, deg=F0, dtype=t.dtype, origin=frozenset(o for o in t.origin if o.endswith("#meta")), rng=True), fn_, node, axes=list(t.axes))
         if name in ("fill_", "zero_", "add_", "sub_", "mul_", "div_", "copy_", "clamp_", "abs_", "neg_", "sqrt_", "normal_",
                     "uniform_", "masked_fill_", "index_add_", "scatter_", "scatter_add_", "nan_to_num_", "sort_", "t_", "resize_",
                     "squeeze_", "unsqueeze_", "requires_grad_", "detach_", "set_", "transpose_", "pow_", "exp_", "floor_", "round_"):
